@@ -3,6 +3,7 @@ use crate::Args;
 pub mod c04;
 pub mod c05;
 pub mod ops;
+pub mod c10;
 pub mod c14;
 pub mod c16;
 pub mod c15;
@@ -13,6 +14,7 @@ pub fn run(args: &Args) -> i32 {
         "C04" => c04::run(args),
         "C05" => c05::run(args),
         "C01" | "C02" | "C03" | "C06" | "C09" => ops::run(args),
+        "C10" => c10::run(args),
         "C14" => c14::run(args),
         "smoke" => smoke::run(args),
         "C16" => c16::run(args),
